@@ -41,13 +41,23 @@ func RunAll(run *hlib.Run, prop string, sigPrefixes []string, n int) {
 			seeds = append(seeds, run.Seed*1000003+700000+uint64(i))
 		}
 	}
+	hangs := 0
 	for idx, s := range seeds {
 		if !run.Mine(idx) {
 			continue
 		}
+		if hangs >= 6 {
+			run.Count("skipped-after-repeated-hangs") // every hang costs its 8 s bound; the violation is already recorded
+			continue
+		}
 		sc := Gen(s, prop)
+		life.Breadcrumb(run.OutDir, "gs "+strconv.FormatUint(s, 10))
 		res := Run(sc)
+		life.Breadcrumb(run.OutDir, "")
 		desc := "gs " + strconv.FormatUint(s, 10) + " # " + sc.String()
+		if res.Hang != "" {
+			hangs++
+		}
 		if res.NewErr != "" {
 			run.Count("group-not-created")
 			run.Case(desc + " => " + res.NewErr)
